@@ -21,6 +21,9 @@ use simcore::{
     Outcome, PanicInfo,
 };
 use utils::Deserializable;
+#[cfg(any(feature = "concurrent", feature = "real-rayon"))]
+#[allow(unused_imports)]
+use utils::iterators::*;
 use verifier::{AcceptableOptions, VerifierError};
 
 use crate::{
